@@ -428,3 +428,11 @@ def replay(run, prop, path):
         return 1
     print(f"replay: property {prop} holds on this history now")
     return 0
+
+
+def warm(run):
+    """emit (and cache) the transition systems the quick tiers use; they do not depend on /repo"""
+    for inst, extra in (("A3", ()), ("C2", ()), ("D3", ()), ("B3", ()), ("F4a", ()), ("F4b", ()), ("F5", ()),
+                        ("A3", ("clone",)), ("A3", ("reload",)), ("C2", ("clone",)), ("C2", ("reload",)),
+                        ("F4a", ("clone",)), ("F4a", ("reload",)), ("F5", ("clone",)), ("F5", ("reload",))):
+        vlib.emit_ts(run, emit_module(inst), cfg_emit(inst, extra))
